@@ -8,9 +8,10 @@ extra = sys.argv[5:]
 src = ("/tmp/seedstage/%s/SEED/%s" % (name, k)) if os.path.isdir("/tmp/seedstage/%s/SEED/%s" % (name, k)) else ("/tmp/wt/%s/SEED/%s" % (name, k))
 dst = "/verif/seeded/%s" % sid
 os.makedirs(dst, exist_ok=True)
-for f in os.listdir(src):
-    shutil.copy(os.path.join(src, f), os.path.join(dst, f))
-conf = open(os.path.join(src, "confirm.log")).read() if os.path.exists(os.path.join(src, "confirm.log")) else ""
+if os.path.isdir(src):
+    for f in os.listdir(src):
+        shutil.copy(os.path.join(src, f), os.path.join(dst, f))
+conf = open(os.path.join(dst, "confirm.log")).read() if os.path.exists(os.path.join(dst, "confirm.log")) else ""
 m = re.search(r"RESULT clean_demo_rc=(\d+) patched_demo_rc=(\d+) patched_suite_rc=(\d+)", conf)
 suite = re.findall(r"Summary.*", conf)
 meta = {"seed_id": sid, "property": prop, "origin": "independent sub-agent given only the property text and a scratch worktree (pinned commit 086a8fa)",
